@@ -215,6 +215,9 @@ def check_formulas(run: Run, tname, ref, tbl, prefix, items):
     import periodictable.formulas as F
     todo = []
     for source, f in items:
+        if f is None:
+            run.dist[source] = run.dist.get(source, 0) + 1
+            continue
         st = G.struct_keys(f.structure)
         if not positive(st):
             run.dist["skipped:nonpositive-count"] = run.dist.get("skipped:nonpositive-count", 0) + 1
@@ -350,6 +353,9 @@ def gen_formulas(rng, ref, tbl, n, maxdepth):
                 f = formula(rng.choice(base), name=rng.choice(["water", "salt", "my alloy", "x", "H2O", "(Fe)"]))
                 src = "named"
         except (ZeroDivisionError, OverflowError):
+            continue
+        except Exception as e:  # noqa  (a generated string that does not parse is C01's business)
+            out.append(("generator-raised:%s" % type(e).__name__, None))
             continue
         out.append((src, f))
         if len(f.structure) and src != "named" and len(str(f.structure)) < 2000:
